@@ -184,7 +184,7 @@ func main() {
 	r.Floor("tamper.program-variants", 1000)
 	r.Floor("preexec.no-trace-checked", 100)
 	r.Assume("kernel contracts share sandbox, bridge, verification and commit paths with user contracts but not the VM-specific syscall marshalling (wasm / native / EVM are not runnable offline)")
-	r.Assume("Node.PreExec mirrors Chain.PreExec of the xuperos engine call by call (simnode/txbuild.go)")
+	r.Assume("pre-execution is the engine's real Chain.PreExec on a Chain built over the node's components (verif shim VerifNewChain)")
 	r.Finish()
 }
 
